@@ -1074,3 +1074,15 @@ for _p in ('C01', 'C05'):
     PLAN[_p]['rule'] += (' Stage prefix_roots: every block history with leaf values that share their first 12 bytes, applied to Stump, Pollard and a '
                          'full map forest; leaf count and roots only (the pointer forest keys its leaf index by those bytes - look-ups by hash are '
                          'ambiguous there by design - but the roots of a block must not depend on that index).')
+
+
+# --------------------------------------------------------------------------- C07: very large blocks; leaf values whose words cancel out
+_c07b = PLAN['C07']['stages']
+PLAN['C07']['stages'] = lambda tier, seed: _c07b(tier, seed) + [
+    light('light_bigblock', ['block', 'undoblock'], 5, 3, stack=1, und=1, x='big=40' if tier == 'quick' else 'big=10'),
+    light('light_xorzero', ['block'], 5 if tier == 'quick' else 6, 3, x='xorzero=1')]
+PLAN['C07']['rule'] += (' Stage light_bigblock: a sample of the blocks is applied once more with 65 536 additional leaves (the forest grows by many '
+                        'rows in one block): the cached proof must verify against the new state and equal the proof of a full prover. Stage '
+                        'light_xorzero: the same behaviours with leaf values whose four 64-bit words cancel out (a|a|b|b).')
+PLAN['C08']['stages'] = (lambda f: (lambda tier, seed: f(tier, seed) + [light('light_xorzero', ['block', 'undoblock'], 5, 3, stack=1, und=1, x='xorzero=1')]))(PLAN['C08']['stages'])
+PLAN['C08']['rule'] += ' Stage light_xorzero: the same behaviours with leaf values whose four 64-bit words cancel out (a|a|b|b).'
